@@ -48,12 +48,28 @@ type c23Finding struct {
 }
 
 // c23Options builds a random option subset. files holds paths of PEM files written for this run.
+// c23Pool holds option values built for earlier clients: applications share option slices between clients.
+type c23Pooled struct {
+	opt  opcua.Option
+	desc c23Opt
+}
+
+var c23Pool []c23Pooled
+
 func c23Options(r *rand.Rand, files map[string]string) ([]opcua.Option, []c23Opt) {
 	var opts []opcua.Option
 	var desc []c23Opt
 	add := func(name, arg string, o opcua.Option) {
+		// now and then the very option value an earlier client was built with is applied again
+		if len(c23Pool) > 0 && r.Intn(4) == 0 {
+			p := c23Pool[r.Intn(len(c23Pool))]
+			opts = append(opts, p.opt)
+			desc = append(desc, c23Opt{p.desc.Name + " (option value shared with an earlier client)", p.desc.Arg})
+			return
+		}
 		opts = append(opts, o)
 		desc = append(desc, c23Opt{name, arg})
+		c23Pool = append(c23Pool, c23Pooled{o, c23Opt{name, arg}})
 	}
 	u32 := func() uint32 {
 		return []uint32{0, 1, 8192, 8193, 16384, 65535, 65536, 1 << 20, 1<<32 - 1, uint32(r.Intn(1 << 24))}[r.Intn(10)]
@@ -111,6 +127,11 @@ func c23Options(r *rand.Rand, files map[string]string) ([]opcua.Option, []c23Opt
 		func() { d := dur(); add("RequestTimeout", d.String(), opcua.RequestTimeout(d)) },
 		func() {
 			d := &uacp.Dialer{Dialer: &net.Dialer{Timeout: dur()}, ClientACK: &uacp.Acknowledge{ReceiveBufSize: u32(), SendBufSize: u32(), MaxMessageSize: u32(), MaxChunkCount: u32()}}
+			if r.Intn(2) == 0 {
+				d.ClientACK = nil // "defaults to DefaultClientACK"
+				add("Dialer", "ClientACK nil", opcua.Dialer(d))
+				return
+			}
 			add("Dialer", fmt.Sprintf("%+v", *d.ClientACK), opcua.Dialer(d))
 		},
 		func() { d := dur(); add("DialTimeout", d.String(), opcua.DialTimeout(d)) },
@@ -196,6 +217,27 @@ func helloOf(opts ...opcua.Option) (*refpeer.Hello, error) {
 	}
 }
 
+// c23Handshake lets the client connect (HEL/ACK and OpenSecureChannel) to a listener that announces 8192 byte buffers.
+func c23Handshake(cl *opcua.Client) {
+	// a client whose own buffers are below the protocol minimum cannot talk to anybody: not this property's business
+	if d := opcua.VerifDialer(cl); d.ClientACK != nil && (d.ClientACK.ReceiveBufSize < 8192 || d.ClientACK.SendBufSize < 8192) {
+		return
+	}
+	srv, err := refpeer.NewServer(refpeer.ServerOpts{Ack: refpeer.Ack{RecvBuf: 8192, SendBuf: 8192, MaxMsg: 100000, MaxChunks: 5}})
+	if err != nil {
+		return
+	}
+	defer srv.Close()
+	// the client was built for another URL; a dialer bound to this listener is not needed: NewClient keeps the
+	// endpoint, so a second client with the same configuration object cannot be made. Use the uacp dialer of the
+	// configuration directly, which is what Client.Dial does.
+	ctx, cancel := context.WithTimeout(context.Background(), 3*time.Second)
+	defer cancel()
+	if conn, err := opcua.VerifDialer(cl).Dial(ctx, srv.Endpoint()); err == nil {
+		conn.Close()
+	}
+}
+
 // c23Child is the fresh process in which one construction sequence runs.
 func c23Child(arg string) int {
 	var a c23Arg
@@ -239,7 +281,7 @@ func c23Child(arg string) int {
 	}
 	var clients []built
 	var seq [][]c23Opt
-	constructed, errored := 0, 0
+	constructed, errored, dialled := 0, 0, 0
 	for step := 0; step < a.Clients; step++ {
 		opts, desc := c23Options(r, files)
 		fmt.Printf("C23STEP %d %s\n", step, mustJSON(desc)) // write-ahead: a crash names the options
@@ -271,6 +313,28 @@ func c23Child(arg string) int {
 		}
 		if cl != nil {
 			clients = append(clients, built{cl, opcua.VerifConfigSnapshot(opcua.VerifClientConfig(cl)), desc})
+			// every third client performs a handshake with a server that announces the smallest buffers and limits;
+			// what is negotiated for that connection must not flow back into any configuration (checked next round)
+			if step%3 == 1 {
+				c23Handshake(cl)
+				dialled++
+			}
+		}
+	}
+	// one more look after the last handshake
+	if c1, _ := opcua.ApplyConfig(); opcua.VerifConfigSnapshot(c1) != base {
+		s := opcua.VerifConfigSnapshot(c1)
+		emit(c23Finding{Key: "c23:defaults-changed:" + firstField(diffLines(base, s)), Desc: "the default configuration changed after a client performed its handshake", Step: a.Clients, Diff: diffLines(base, s), AllSeq: seq})
+		base = s
+	}
+	if *uacp.DefaultClientACK != ack0 {
+		emit(c23Finding{Key: "c23:uacp.DefaultClientACK-changed", Desc: fmt.Sprintf("uacp.DefaultClientACK changed from %+v to %+v after a client performed its handshake", ack0, *uacp.DefaultClientACK), Step: a.Clients, AllSeq: seq})
+		ack0 = *uacp.DefaultClientACK
+	}
+	for i := range clients {
+		if s := opcua.VerifConfigSnapshot(opcua.VerifClientConfig(clients[i].cl)); s != clients[i].snap {
+			emit(c23Finding{Key: "c23:existing-client-changed:" + firstField(diffLines(clients[i].snap, s)), Desc: fmt.Sprintf("the configuration of client %d changed after a handshake", i), Step: a.Clients, Diff: diffLines(clients[i].snap, s), AllSeq: seq})
+			clients[i].snap = s
 		}
 	}
 	// 3. on the wire: a default client still announces the library defaults
@@ -292,6 +356,7 @@ func c23Child(arg string) int {
 			emit(c23Finding{Key: "c23:default-client-hello-changed", Desc: fmt.Sprintf("a default client announced %+v in a fresh process and %+v after a client with buffer options had dialled", *hel0, *h2), Step: a.Clients + 1, AllSeq: seq})
 		}
 	}
+	fmt.Printf("C23DIALLED %d\n", dialled)
 	fmt.Printf("C23DONE %d %d\n", constructed, errored)
 	return 0
 }
@@ -343,6 +408,10 @@ func c23Run(c *fw.Ctx) error {
 			case strings.HasPrefix(line, "C23STEP "):
 				lastStep = line[8:]
 				c.Nontrivial(line[8:])
+			case strings.HasPrefix(line, "C23DIALLED "):
+				var n int64
+				fmt.Sscanf(line[11:], "%d", &n)
+				c.Class("clients-that-performed-a-handshake-with-a-small-buffer-server", n)
 			case strings.HasPrefix(line, "C23DONE "):
 				done = true
 				var ok, bad int64
@@ -366,7 +435,7 @@ func init() {
 	fw.Register("C23", fw.Spec{
 		Plan: func(tier string) fw.Plan {
 			p := fw.Plan{Batches: 8, TimeoutS: 900, MinNontrivial: 500, Level: "exploration",
-				Rule:        "each sequence runs in a fresh child process: baseline = configuration snapshot (every field reachable from dialer, channel and session config, via the verif hook), uacp.DefaultClientACK and the Hello a default client sends to a scripted listener; then 2-8 clients are constructed with random subsets (1, few, many, all) of all 36 options in random order with generated arguments; after every construction the fresh-default snapshot, DefaultClientACK and the snapshots of all earlier clients must be unchanged; at the end the Hello of a default client must equal the baseline and a client with its own buffer options must announce exactly those; distinct = distinct option lists",
+				Rule:        "each sequence runs in a fresh child process: baseline = configuration snapshot (every field reachable from dialer, channel and session config, via the verif hook), uacp.DefaultClientACK and the Hello a default client sends to a scripted listener; then 2-8 clients are constructed with random subsets (1, few, many, all) of all 36 options in random order with generated arguments; after every construction the fresh-default snapshot, DefaultClientACK and the snapshots of all earlier clients must be unchanged; every third client performs a handshake with a listener that announces 8192 byte buffers; option values built for earlier clients are re-applied to later ones in a quarter of the slots; at the end the Hello of a default client must equal the baseline and a client with its own buffer options must announce exactly those; distinct = distinct option lists",
 				Assumptions: []string{"the snapshot hook renders functions and channels only as set/unset"}}
 			if tier == "thorough" {
 				p.Batches, p.TimeoutS, p.MinNontrivial = 16, 3400, 30000
